@@ -54,6 +54,7 @@ type Harness struct {
 	Tags      []string          `json:"tags"`
 	Env       []string          `json:"env"`
 	NoThorough bool             `json:"no_thorough"`
+	DetMaps    bool             `json:"detmaps"` // rewrite `range` over maps keyed by strings/integers/channels to a deterministic order (vsched.RangeMap)
 }
 
 func die(code int, f string, a ...any) {
@@ -339,7 +340,16 @@ func selftest(id string) int {
 	bad := 0
 	for _, m := range ms {
 		fmt.Printf("selftest %s: %s\n", id, strings.TrimPrefix(m, verif+"/"))
-		code := runCheck(id, "quick", "", []string{m}, true)
+		// own process: a patch that does not apply must not end the whole selftest
+		self, _ := os.Executable()
+		sub := exec.Command(self, id, "quick", "--patch", m)
+		out, err := sub.CombinedOutput()
+		code := exitCode(err)
+		for _, l := range strings.Split(string(out), "\n") {
+			if strings.HasPrefix(l, "VIOLATION") || strings.HasPrefix(l, "KNOWN-FINDING") || strings.HasPrefix(l, id+" ") || strings.HasPrefix(l, "  symptom") || strings.HasPrefix(l, "vrun:") {
+				fmt.Println("    " + l)
+			}
+		}
 		switch code {
 		case 1:
 			fmt.Println("    caught")
